@@ -65,6 +65,9 @@ func caseGen() *rapid.Generator[Case] {
 				st.When = rapid.IntRange(0, 3).Draw(t, "when")
 				st.Target = rapid.IntRange(0, 2).Draw(t, "target")
 				st.Via2 = rapid.IntRange(0, 4).Draw(t, "via2") == 0
+				if rapid.IntRange(0, 5).Draw(t, "many") == 0 {
+					st.N = rapid.IntRange(2, 11).Draw(t, "n") // slices grow in steps: 3, 5, 9 entries leave spare capacity
+				}
 			case "render":
 				st.Via = rapid.SampledFrom([]string{"invoke", "csv", "html", "json", "markdown", "texttable"}).Draw(t, "via")
 			}
